@@ -56,7 +56,7 @@ def main():
     import numpy as np
     from pydap.client import open_url
     from pydap.handlers.lib import BaseHandler
-    from pydap.model import BaseType, DatasetType, GridType
+    from pydap.model import BaseType, DatasetType, GridType, StructureType
 
     direct = []
     q_cases = []
@@ -99,6 +99,11 @@ def main():
         for k in range(rank):
             g["m%d" % k] = BaseType("m%d" % k, maps[k])
         ds["g"] = g
+        # two structures whose members are namesakes
+        for sn_, off_ in (("s1", 1000), ("s2", 2000)):
+            st_ = StructureType(sn_)
+            st_["t"] = BaseType("t", src + off_)
+            ds[sn_] = st_
         spy = Spy(BaseHandler(ds))
         # URL pre-constraint [a:s:b] per axis (or none)
         for pre_on in (False, "whole", "prefix", "any"):
@@ -157,7 +162,13 @@ def main():
             for kind in ("array", "grid_on", "grid_off"):
                 var = "x" if kind == "array" else "g"
                 url = "http://localhost:8001/" + ("?%s%s" % (var, slab) if pre_on else "")
-                if pre_on and (ci < 2 or rng.random() < 0.25):
+                twin = False
+                if pre_on and kind == "array" and (ci in (2, 3) or rng.random() < 0.25):
+                    # namesakes of two structures in one request, with the same hyperslab text: each is sliced
+                    url = "http://localhost:8001/?s1.t%s,s2.t%s" % (slab, slab)
+                    twin = True
+                    stats["url_with_namesakes"] = stats.get("url_with_namesakes", 0) + 1
+                elif pre_on and (ci < 2 or rng.random() < 0.25):
                     # the variable named once more, without a hyperslab: the hyperslab still holds
                     url += "," + var
                     stats["url_names_variable_twice"] = stats.get("url_names_variable_twice", 0) + 1
@@ -180,7 +191,11 @@ def main():
                             # numpy integers are integers
                             key = (tuple(np.int64(i_) if type(i_) is int else i_ for i_ in key) if isinstance(key, tuple)
                                    else np.int64(key) if type(key) is int else key)
-                        if kind == "array":
+                        if kind == "array" and twin:
+                            for sn_, off_ in (("s2", 2000), ("s1", 1000)):
+                                check_array("namesake %s.t" % sn_, c[sn_]["t"].data[key], want + off_, dict(info, variable=sn_ + ".t", url=url))
+                            stats["dap2_array"] += 1
+                        elif kind == "array":
                             got = c["x"].data[key]
                             stats["dap2_array"] += 1
                             ok = check_array(kind, got, want, info)
